@@ -474,6 +474,7 @@ type iwRun struct {
 	aborted bool
 	broken  bool // a data packet failed: the buffered writer keeps that error
 	nwrites int
+	nsent   int      // data packets sent
 	life    []string // cases of the response-life model observed on the way
 }
 
@@ -587,9 +588,16 @@ func (x *iwRun) do(a iwAction) {
 		// let it enter its wait; it holds the write lock until the reply comes
 		x.g.release(x.writer)
 		x.wpos = "wait"
+		x.nsent++
 		x.label("WSend")
 	case "ack", "nak":
+		// the capture of the session's output may lag behind: look until the packet is there
+		want := x.nsent
 		ms := dataIQ.FindAllSubmatch(x.p.Written(), -1)
+		for deadline := time.Now().Add(6 * watchdog); len(ms) < want && time.Now().Before(deadline); {
+			time.Sleep(200 * time.Microsecond)
+			ms = dataIQ.FindAllSubmatch(x.p.Written(), -1)
+		}
 		if len(ms) == 0 {
 			x.fail("C06/ibb-write/packet-not-sent", "no data packet on the wire although the writer waits for its acknowledgement")
 			return
